@@ -961,6 +961,7 @@ def classify_bool_expr(d):
             'std::cmp::PartialOrd::le': 'cmp_le',
             'std::cmp::PartialEq::eq': 'cmp_eq',
             'std::cmp::PartialEq::ne': 'cmp_ne',
+            'std::iter::Iterator::any': 'iter_any',
             'lock_api::RawMutex::try_lock': 'trylock_ok',
             'std::ops::Fn::call': 'cond',
             'std::ops::FnMut::call_mut': 'cond',
